@@ -366,9 +366,13 @@ class CFG:
             cache[key] = entry
             fcont = outer.replace(copy=copy)
             ends = build_final([(entry, "n")], fcont)
-            for tgt, label in then_targets():
-                for src, _l in ends:
-                    self._edge(src, tgt, label)
+            if ends:
+                # a join node keeps the ends' own labels (T/F of a trailing test) separate from the
+                # label of the resumed completion
+                out = self._new("join", None, stmt, f"end of finally[{tag}] of {A.head(stmt)}", copy)
+                self._connect(ends, out)
+                for tgt, label in then_targets():
+                    self._edge(out, tgt, label)
             return entry
 
         c = Cont(
